@@ -343,6 +343,25 @@ def oracle(ctx, deep):
     import scipp as sc
     from scippneutron.atoms import reference_wavelength
 
+    # "nothing where the table is blank": a material whose tabulated total-scattering or absorption cross-section is
+    # blank has no attenuation coefficient by the 1/v law; answering with a number would invent table data.
+    from scippneutron.absorption.material import Material
+    from scippneutron.atoms import ScatteringParams
+
+    for r in scat:
+        blank = [f for i, (f, _) in enumerate(SCAT_FIELDS) if f in ('total_scattering_cross_section', 'absorption_cross_section') and r[1 + 2 * i] == '']
+        if not blank:
+            continue
+        ctx.case(('oracle-att-blank', r[0]), True)
+        ctx.count('att-blank-row')
+        try:
+            p = ScatteringParams.for_isotope(r[0])
+            mu = Material(p, sc.scalar(0.05, unit='1/angstrom**3')).attenuation_coefficient(sc.scalar(1.8, unit='angstrom'))
+        except Exception:  # noqa: BLE001
+            continue
+        ctx.violation('C20:attenuation-from-blank-cross-section',
+                      f'attenuation coefficient {mu.value!r} {mu.unit} returned for {r[0]!r} although its {"/".join(blank)} is blank in the table',
+                      {'name': r[0], 'blank': blank})
     ref = reference_wavelength()
     if not (str(ref.unit) in ('angstrom', 'Å') and float(ref.value) == 1.7982):
         ctx.violation('C20:reference-wavelength', f'reference wavelength is {ref.value} {ref.unit}, not 1.7982 angstrom', {})
@@ -436,6 +455,16 @@ def replay(ctx, payload):
     if key in ('C20:atom-row',):
         exp = w['expected']
         return _impl_atom(w['name']) != (tuple(_tuplify(exp)) if isinstance(exp, list) else exp)
+    if key == 'C20:attenuation-from-blank-cross-section':
+        import scipp as sc
+        from scippneutron.absorption.material import Material
+        from scippneutron.atoms import ScatteringParams
+
+        try:
+            Material(ScatteringParams.for_isotope(w['name']), sc.scalar(0.05, unit='1/angstrom**3')).attenuation_coefficient(sc.scalar(1.8, unit='angstrom'))
+        except Exception:  # noqa: BLE001
+            return False
+        return True
     if key == 'C20:lookup-depends-on-history':
         from scippneutron.atoms import Atom, ScatteringParams
 
